@@ -388,6 +388,8 @@ struct C11 : Scenario {
 		Task t;
 		for (int i = 0; i < n + 1; ++i) { Op o; o.kind = "next"; t.ops.push_back(o); }
 		p.tasks.push_back(t);
+		// the invariant must also hold for whatever is returned after an allocation failed while the header was built
+		if (rng.chance(1, 4)) p.seti("afail", (int64_t) rng.below(24));
 		return p;
 	}
 	RunResult execute(const Plan &p, Plan *) override {
@@ -396,6 +398,7 @@ struct C11 : Scenario {
 		BuiltArchive a = build_archive(p);
 		if (p.tasks.empty()) return res;
 		DriveOpts o;
+		if (p.geti("afail", -1) >= 0) { o.ledger = true; o.fail_alloc = p.geti("afail"); }
 		o.budget = 4096 + 8 * a.bytes.size();
 		DriveOut d = drive_reader(p.tasks[0], a.bytes, o);
 		if (d.budget) res.fail("C11.budget", "budget", "next_file did not return within the step budget");
